@@ -10,6 +10,32 @@ NOTE_COMMON = ("Trusted: Verus 0.2026.09.13 + Z3; the extractor's logged rewrite
                "std/serde_json stand-ins listed in evidence.coverage.trusted_base (external_body / assume_specification / uninterp); ")
 
 CLAIMED = {
+    "C01": {
+        "text": "Proof: handle()'s contract (every complete frame taken from the reader is parsed and answered per the reply discipline, replies appended "
+                "in frame order, nothing consumed is lost, Ok without upgrade only at EOF/incomplete tail) is discharged for all byte streams, all "
+                "read segmentations and all iteration counts; VarlinkService::call, the built-in interface and every reply helper carry `answered`.",
+        "note": NOTE_COMMON + "registered Interface::call implementations (user/generated code) are ASSUMED to reply per `answers` or return Err; "
+                "the listen() worker loop half is covered by the listen unit when built.",
+        "ref": "5-C01",
+    },
+    "C02": {
+        "text": "Proof: at every exit of handle() the bytes removed from the reader are exactly wire(frames) ++ tail ++ what is left, with NUL-free frames and a "
+                "NUL-free tail when not upgraded; the BufReader stand-in leaves the amount pulled per read unconstrained, so the clause holds for every segmentation.",
+        "note": NOTE_COMMON + "BufReader::read_until contract (prelude/bufreader.vrs) is assumed; determinism of registered interfaces is needed for byte-equality of replies across segmentations.",
+        "ref": "5-C02",
+    },
+    "C03": {
+        "text": "Proof: VarlinkService::new establishes key==name; call() routes to the built-in, to exactly the registered entry, or writes InterfaceNotFound{iface}; the built-in "
+                "answers GetInfo / GetInterfaceDescription / MethodNotFound as specified (builtin_post); handle() calls it with the prefix before the LAST dot.",
+        "note": NOTE_COMMON + "HashMap stand-in (finite map, unique keys); generated MethodNotFound fallback lives in quote! templates and is assumed.",
+        "ref": "5-C03",
+    },
+    "C06": {
+        "text": "Proof: handle() never writes for a frame that does not parse and never returns Ok past one; every frame before it is served; all arithmetic / unwrap / "
+                "index / callee preconditions inside handle, VarlinkService::call, the built-in interface and the reply helpers are discharged for all inputs (no panic).",
+        "note": NOTE_COMMON + "serde_json recursion limit and panics inside dependencies are assumed away; cross-connection scheduling effects are not claimed.",
+        "ref": "5-C06",
+    },
     "C04": {
         "text": "Proof: every server-side reply writer (reply_struct, reply_parameters and every helper that funnels into them) is verified, "
                 "for all Call states and all replies, to leave the writer log unchanged when the request carries oneway:true.",
@@ -26,6 +52,7 @@ CLAIMED = {
 
 NOT_APPLICABLE = {
 }
+
 
 PENDING = {}
 
